@@ -479,15 +479,15 @@ func (ru *runner) restartAfterKill(cw *crashWorld, dir string, vers map[string]i
 }
 
 type crashCase struct {
-	Idx    int    `json:"idx"`
-	Method string `json:"method"` // "stall", "inject", "random", "stall-empty-cache"
-	Target string `json:"target,omitempty"`
-	Chunk  int    `json:"chunk,omitempty"`
-	Of     int    `json:"of_chunks,omitempty"`
-	Sys    string `json:"syscall,omitempty"`
-	N      int    `json:"n,omitempty"`
+	Idx    int     `json:"idx"`
+	Method string  `json:"method"` // "stall", "inject", "random", "stall-empty-cache"
+	Target string  `json:"target,omitempty"`
+	Chunk  int     `json:"chunk,omitempty"`
+	Of     int     `json:"of_chunks,omitempty"`
+	Sys    string  `json:"syscall,omitempty"`
+	N      int     `json:"n,omitempty"`
 	Frac   float64 `json:"kill_at_fraction,omitempty"`
-	Rounds int    `json:"rounds,omitempty"`
+	Rounds int     `json:"rounds,omitempty"`
 }
 
 func (c crashCase) class() string {
